@@ -123,3 +123,415 @@ Lemma nv_turn_all_done :
                  [(1%nat, true); (0%nat, true)] [(1%nat, -101); (0%nat, -100)] true)] /\
   chk_run nv2_sc MTurn 1 [CReset; st1 0 1] = 0 /\ chk_run nv2_sc MTurn 7 [CReset; st1 0 1] = 0.
 Proof. repeat split; vm_compute; reflexivity. Qed.
+
+(* ====================================================================================
+   The checker accepts the model's own behaviour
+   ==================================================================================== *)
+Open Scope nat_scope.
+
+(* ---------------- lists ---------------- *)
+Lemma nats_eqb_refl l : nats_eqb l l = true.
+Proof. induction l as [|a l IH]; [reflexivity|]. simpl. rewrite Nat.eqb_refl. exact IH. Qed.
+
+Lemma kv_eqb_refl x : kv_eqb x x = true.
+Proof. unfold kv_eqb. rewrite Nat.eqb_refl, Z.eqb_refl. reflexivity. Qed.
+
+Lemma kvs_eqb_refl l : kvs_eqb l l = true.
+Proof. induction l as [|a l IH]; [reflexivity|]. simpl. rewrite kv_eqb_refl. exact IH. Qed.
+
+Lemma kvs_eqb_eq l : forall m, kvs_eqb l m = true -> l = m.
+Proof.
+  induction l as [|[a v] l IH]; intros [|[b w] m] H; try discriminate; [reflexivity|].
+  simpl in H. apply andb_true_iff in H as [H1 H2]. unfold kv_eqb in H1. cbn in H1.
+  apply andb_true_iff in H1 as [H1 H3]. apply Nat.eqb_eq in H1. apply Z.eqb_eq in H3.
+  subst. f_equal. apply IH, H2.
+Qed.
+
+Lemma nodupb_NoDup l : NoDup l -> nodupb l = true.
+Proof.
+  induction 1 as [|a l Hn _ IH]; [reflexivity|]. simpl. rewrite IH, andb_true_r.
+  apply negb_true_iff, memb_false_In, Hn.
+Qed.
+
+Lemma length_set_nth l : forall i v, length (set_nth l i v) = length l.
+Proof. induction l as [|x l IH]; intros [|i] v; simpl; try reflexivity. rewrite IH. reflexivity. Qed.
+
+Lemma nth_set_nth l : forall i j v, (i < length l)%nat ->
+  nth j (set_nth l i v) 0%Z = if Nat.eqb j i then v else nth j l 0%Z.
+Proof.
+  induction l as [|x l IH]; intros i j v Hi; [simpl in Hi; lia|].
+  destruct i as [|i]; destruct j as [|j]; simpl; try reflexivity.
+  apply IH. simpl in Hi. lia.
+Qed.
+
+Lemma length_add_lists l : forall m, length (add_lists l m) = length l.
+Proof.
+  induction l as [|x l IH]; intros [|y m]; simpl; try reflexivity. rewrite IH. reflexivity.
+Qed.
+
+Lemma nth_add_lists l : forall m j, (j < length l)%nat ->
+  nth j (add_lists l m) 0%Z = (nth j l 0 + nth j m 0)%Z.
+Proof.
+  induction l as [|x l IH]; intros m j Hj; [simpl in Hj; lia|].
+  destruct m as [|y m]; simpl.
+  - destruct j; lia.
+  - destruct j as [|j]; [reflexivity|]. apply IH. simpl in Hj. lia.
+Qed.
+
+Lemma nth_firstn_lt {A} (l : list A) : forall k j d, (j < k)%nat -> nth j (firstn k l) d = nth j l d.
+Proof.
+  induction l as [|x l IH]; intros k j d Hj; [rewrite firstn_nil; reflexivity|].
+  destruct k as [|k]; [lia|]. destruct j as [|j]; [reflexivity|]. simpl. apply IH. lia.
+Qed.
+
+Lemma length_zeros k : length (zeros k) = k.
+Proof. induction k as [|k IH]; [reflexivity|]. simpl. rewrite IH. reflexivity. Qed.
+
+Lemma nth_zeros k j : nth j (zeros k) 0%Z = 0%Z.
+Proof. revert j. induction k as [|k IH]; intros [|j]; simpl; try reflexivity. apply IH. Qed.
+
+Lemma map_fst_filter_snd {A} (f : A -> bool) (l : list A) :
+  map fst (filter snd (map (fun a => (a, f a)) l)) = filter f l.
+Proof.
+  induction l as [|a l IH]; [reflexivity|]. simpl. destruct (f a); simpl; rewrite IH; reflexivity.
+Qed.
+
+Definition extends {A} (l full : list A) : Prop := exists x, full = l ++ x.
+
+Lemma extends_refl {A} (l : list A) : extends l l.
+Proof. exists []. symmetry. apply app_nil_r. Qed.
+
+Lemma extends_trans {A} (a b c : list A) : extends a b -> extends b c -> extends a c.
+Proof. intros (x & ->) (y & ->). exists (x ++ y). rewrite app_assoc. reflexivity. Qed.
+
+Lemma extends_app {A} (a x : list A) : extends a (a ++ x).
+Proof. exists x. reflexivity. Qed.
+
+Lemma nth_error_extends {A} (l : list A) x full :
+  extends (l ++ [x]) full -> nth_error full (length l) = Some x.
+Proof.
+  intros (y & ->). rewrite <- app_assoc. rewrite nth_error_app2 by lia.
+  rewrite Nat.sub_diag. reflexivity.
+Qed.
+
+Lemma segment_extends {A} (l ks full : list A) :
+  extends (l ++ ks) full -> segment full (length l) (length ks) = ks.
+Proof.
+  intros (y & ->). unfold segment. rewrite <- app_assoc.
+  rewrite skipn_app, skipn_all, Nat.sub_diag. cbn [app skipn].
+  rewrite firstn_app, firstn_all, Nat.sub_diag. cbn. apply app_nil_r.
+Qed.
+
+(* ---------------- the scripted simulation under the model ---------------- *)
+Section ScriptModel.
+  Variable sc : script.
+  Notation SS := (script_sim sc).
+  Notation n := (sc_n sc).
+
+  Definition obsv (t a : nat) : Z := (Z.of_nat t * 100 + Z.of_nat a)%Z.
+
+  (* pending rewards after the accumulators of ks were read *)
+  Definition zero_at (p : list Z) (ks : list nat) : list Z :=
+    fold_left (fun p a => set_nth p a 0%Z) ks p.
+
+  (* the values those reads return *)
+  Fixpoint rews (p : list Z) (ks : list nat) : list (nat * Z) :=
+    match ks with
+    | [] => []
+    | a :: ks' => (a, nth a p 0%Z) :: rews (set_nth p a 0%Z) ks'
+    end.
+
+  (* s' is s after get_obs/get_reward/get_done/get_info for the agents ks, in this order *)
+  Definition rdrel (s : sst) (ks : list nat) (s' : sst) : Prop :=
+    s_t s' = s_t s /\ s_pend s' = zero_at (s_pend s) ks /\ s_steps s' = s_steps s /\
+    s_reads s' = s_reads s ++ ks.
+
+  (* o' is o extended by the reports of ks at time t with pending rewards p *)
+  Definition outrel (t : nat) (p : list Z) (o : out Z Z) (ks : list nat) (o' : out Z Z) : Prop :=
+    o_obs o' = o_obs o ++ map (fun a => (a, obsv t a)) ks /\
+    o_rew o' = o_rew o ++ rews p ks /\
+    o_done o' = o_done o ++ map (fun a => (a, rdone sc t a)) ks /\
+    o_info o' = o_info o ++ map (fun a => (a, (- obsv t a)%Z)) ks.
+
+  Lemma rdrel_refl s : rdrel s [] s.
+  Proof. unfold rdrel. cbn. rewrite app_nil_r. tauto. Qed.
+
+  Lemma outrel_refl t p o : outrel t p o [] o.
+  Proof. unfold outrel. cbn. rewrite !app_nil_r. tauto. Qed.
+
+  Lemma zero_at_app p k1 k2 : zero_at p (k1 ++ k2) = zero_at (zero_at p k1) k2.
+  Proof. unfold zero_at. apply fold_left_app. Qed.
+
+  Lemma rews_app k1 : forall p k2, rews p (k1 ++ k2) = rews p k1 ++ rews (zero_at p k1) k2.
+  Proof.
+    induction k1 as [|a k1 IH]; intros p k2; [reflexivity|]. cbn. rewrite IH. reflexivity.
+  Qed.
+
+  Lemma rdrel_trans s k1 s1 k2 s2 : rdrel s k1 s1 -> rdrel s1 k2 s2 -> rdrel s (k1 ++ k2) s2.
+  Proof.
+    intros (A1 & A2 & A3 & A4) (B1 & B2 & B3 & B4). unfold rdrel.
+    rewrite B1, B2, B3, B4, A1, A2, A3, A4, zero_at_app, app_assoc. tauto.
+  Qed.
+
+  Lemma outrel_trans t p o k1 o1 k2 o2 :
+    outrel t p o k1 o1 -> outrel t (zero_at p k1) o1 k2 o2 -> outrel t p o (k1 ++ k2) o2.
+  Proof.
+    intros (A1 & A2 & A3 & A4) (B1 & B2 & B3 & B4). unfold outrel.
+    rewrite B1, B2, B3, B4, A1, A2, A3, A4, rews_app, !map_app, <- !app_assoc. tauto.
+  Qed.
+
+  Lemma length_zero_at ks : forall p, length (zero_at p ks) = length p.
+  Proof.
+    induction ks as [|a ks IH]; intros p; [reflexivity|].
+    change (length (zero_at (set_nth p a 0%Z) ks) = length p). rewrite IH. apply length_set_nth.
+  Qed.
+
+  (* distinct agents: each read returns what was pending before the output *)
+  Lemma rews_nodup ks : forall p, NoDup ks -> (forall a, In a ks -> a < length p) ->
+    rews p ks = map (fun a => (a, nth a p 0%Z)) ks.
+  Proof.
+    induction ks as [|a ks IH]; intros p ND Hlt; [reflexivity|]. cbn.
+    inversion ND as [|x l Hn ND']; subst. f_equal. rewrite IH.
+    - apply map_ext_in. intros b Hb. f_equal. rewrite nth_set_nth by (apply Hlt; left; reflexivity).
+      destruct (Nat.eqb b a) eqn:E; [|reflexivity]. apply Nat.eqb_eq in E. subst. contradiction.
+    - exact ND'.
+    - intros b Hb. rewrite length_set_nth. apply Hlt. right. exact Hb.
+  Qed.
+
+  (* ---- the definitions of the model instance and of the checker coincide ---- *)
+  Lemma order_script : order SS = corder sc.
+  Proof. reflexivity. Qed.
+  Lemma agents_script : agents SS = cagents sc.
+  Proof. reflexivity. Qed.
+  Lemma all_in_script d : all_in SS d = call_in sc d.
+  Proof. reflexivity. Qed.
+  Lemma done_script s a : sim_done SS s a = rdone sc (s_t s) a.
+  Proof. reflexivity. Qed.
+
+  Lemma ss_add_report s a o o1 s1 : add_report SS s a o = (o1, s1) ->
+    outrel (s_t s) (s_pend s) o [a] o1 /\ rdrel s [a] s1 /\ o_all o1 = o_all o.
+  Proof.
+    unfold add_report. cbn. intros H. injection H as <- <-. unfold outrel, rdrel. cbn.
+    repeat split.
+  Qed.
+
+  Lemma outrel_cons t p o a o1 ks o2 s s1 :
+    outrel t p o [a] o1 -> rdrel s [a] s1 -> s_pend s = p ->
+    outrel t (s_pend s1) o1 ks o2 -> outrel t p o (a :: ks) o2.
+  Proof.
+    intros A (_ & B & _) <- C. apply (outrel_trans _ _ _ [a] o1 ks o2 A). rewrite <- B. exact C.
+  Qed.
+
+  Lemma ss_flush d l : forall s o o' s', flush SS s d l o = (o', s') ->
+    outrel (s_t s) (s_pend s) o (filter (fun a => negb (memb a d)) l) o' /\
+    rdrel s (filter (fun a => negb (memb a d)) l) s' /\ o_all o' = o_all o.
+  Proof.
+    induction l as [|a l IH]; intros s o o' s' H; cbn [flush] in H; cbn [filter].
+    - injection H as <- <-. split; [apply outrel_refl|]. split; [apply rdrel_refl|reflexivity].
+    - destruct (memb a d); cbn [negb]; [apply IH, H|].
+      destruct (add_report SS s a o) as [o1 s1] eqn:Ea.
+      destruct (ss_add_report _ _ _ _ _ Ea) as (A1 & A2 & A3).
+      destruct (IH _ _ _ _ H) as (B1 & B2 & B3). pose proof A2 as (T & _).
+      rewrite T in B1. split; [|split; [|congruence]].
+      + apply (outrel_cons _ _ _ _ _ _ _ _ _ A1 A2 eq_refl B1).
+      + apply (rdrel_trans _ [a] _ _ _ A2 B2).
+  Qed.
+
+  Lemma ss_thread_obs l s :
+    thread (sim_obs SS) s l = (map (fun a => (a, obsv (s_t s) a)) l, s).
+  Proof. induction l as [|a l IH]; [reflexivity|]. cbn. cbn in IH. rewrite IH. reflexivity. Qed.
+
+  Lemma ss_thread_rew l : forall s r s', thread (sim_reward SS) s l = (r, s') ->
+    r = rews (s_pend s) l /\ rdrel s l s'.
+  Proof.
+    induction l as [|a l IH]; intros s r s' H.
+    - cbn in H. injection H as <- <-. split; [reflexivity|apply rdrel_refl].
+    - cbn in H. destruct (thread ss_reward _ l) as [r1 s2] eqn:E. injection H as <- <-.
+      destruct (IH _ _ _ E) as (A & B). cbn in A. split; [cbn; rewrite A; reflexivity|].
+      eapply (rdrel_trans s [a] _ l s2). 2: exact B. unfold rdrel. cbn. tauto.
+  Qed.
+
+  (* ---- the turn search of the model walks exactly like the checker's reference walk ---- *)
+  Lemma turn_search_unf f s d p o : turn_search SS (S f) s d p o =
+    if memb (nth p (corder sc) 0) d then turn_search SS f s d (S p mod length (corder sc)) o
+    else if rdone sc (s_t s) (nth p (corder sc) 0) then
+           let (o1, s1) := add_report SS s (nth p (corder sc) 0) o in
+           if call_in sc (d ++ [nth p (corder sc) 0])
+           then SOk (set_all o1 true) s1 (d ++ [nth p (corder sc) 0]) (S p mod length (corder sc))
+           else turn_search SS f s1 (d ++ [nth p (corder sc) 0]) (S p mod length (corder sc)) o1
+         else let (o1, s1) := add_report SS s (nth p (corder sc) 0) o in
+              SOk o1 s1 d (S p mod length (corder sc)).
+  Proof. reflexivity. Qed.
+
+  Lemma turn_walk_unf f t d p : turn_walk sc (S f) t d p =
+    if memb (nth p (corder sc) 0) d then turn_walk sc f t d (S p mod length (corder sc))
+    else if rdone sc t (nth p (corder sc) 0) then
+           if call_in sc (d ++ [nth p (corder sc) 0])
+           then ([nth p (corder sc) 0], S p mod length (corder sc))
+           else let (r, q) := turn_walk sc f t (d ++ [nth p (corder sc) 0])
+                                        (S p mod length (corder sc)) in
+                (nth p (corder sc) 0 :: r, q)
+         else ([nth p (corder sc) 0], S p mod length (corder sc)).
+  Proof. reflexivity. Qed.
+
+  Lemma set_all_outrel t p o ks o1 b : outrel t p o ks o1 -> outrel t p o ks (set_all o1 b).
+  Proof. intros H. exact H. Qed.
+
+  Lemma ss_turn_search fuel : forall s d p o o' s' d' p',
+    turn_search SS fuel s d p o = SOk o' s' d' p' ->
+    outrel (s_t s) (s_pend s) o (fst (turn_walk sc fuel (s_t s) d p)) o' /\
+    rdrel s (fst (turn_walk sc fuel (s_t s) d p)) s' /\
+    p' = snd (turn_walk sc fuel (s_t s) d p) /\
+    d' = d ++ filter (rdone sc (s_t s)) (fst (turn_walk sc fuel (s_t s) d p)).
+  Proof.
+    induction fuel as [|f IH]; intros s d p o o' s' d' p' H; [discriminate|].
+    rewrite turn_search_unf in H. rewrite turn_walk_unf.
+    set (a := nth p (corder sc) 0) in *. set (q := S p mod length (corder sc)) in *.
+    destruct (memb a d); [apply IH, H|].
+    destruct (add_report SS s a o) as [o1 s1] eqn:Ea.
+    destruct (ss_add_report _ _ _ _ _ Ea) as (A1 & A2 & A3). pose proof A2 as (T & _).
+    destruct (rdone sc (s_t s) a) eqn:Ed; [destruct (call_in sc (d ++ [a]))|].
+    - injection H as <- <- <- <-. cbn [fst snd filter]. rewrite Ed.
+      split; [exact A1|]. split; [exact A2|]. split; reflexivity.
+    - destruct (IH _ _ _ _ _ _ _ _ H) as (B1 & B2 & B3 & B4). rewrite T in *.
+      destruct (turn_walk sc f (s_t s) (d ++ [a]) q) as [r q']. cbn [fst snd filter] in *.
+      rewrite Ed. split; [apply (outrel_cons _ _ _ _ _ _ _ _ _ A1 A2 eq_refl B1)|].
+      split; [apply (rdrel_trans _ [a] _ _ _ A2 B2)|]. split; [exact B3|].
+      rewrite B4, <- app_assoc. reflexivity.
+    - injection H as <- <- <- <-. cbn [fst snd filter]. rewrite Ed, app_nil_r.
+      split; [exact A1|]. split; [exact A2|]. split; reflexivity.
+  Qed.
+
+  Lemma dyn_loop_unf s d a l o : dyn_loop SS s d (a :: l) o =
+    if memb a d then dyn_loop SS s d l o
+    else if rdone sc (s_t s) a then
+           let (o1, s1) := add_report SS s a o in
+           if call_in sc (d ++ [a]) then (set_all o1 true, s1, d ++ [a])
+           else dyn_loop SS s1 (d ++ [a]) l o1
+         else let (o1, s1) := add_report SS s a o in dyn_loop SS s1 d l o1.
+  Proof. reflexivity. Qed.
+
+  Lemma ss_dyn_loop l : forall s d o o' s' d',
+    dyn_loop SS s d l o = (o', s', d') ->
+    outrel (s_t s) (s_pend s) o (dyn_walk sc (s_t s) d l) o' /\
+    rdrel s (dyn_walk sc (s_t s) d l) s' /\
+    d' = d ++ filter (rdone sc (s_t s)) (dyn_walk sc (s_t s) d l).
+  Proof.
+    induction l as [|a l IH]; intros s d o o' s' d' H.
+    - cbn in H. injection H as <- <- <-. cbn. rewrite app_nil_r.
+      split; [apply outrel_refl|]. split; [apply rdrel_refl|reflexivity].
+    - rewrite dyn_loop_unf in H. cbn [dyn_walk].
+      destruct (memb a d); [apply IH, H|].
+      destruct (add_report SS s a o) as [o1 s1] eqn:Ea.
+      destruct (ss_add_report _ _ _ _ _ Ea) as (A1 & A2 & A3). pose proof A2 as (T & _).
+      destruct (rdone sc (s_t s) a) eqn:Ed; [destruct (call_in sc (d ++ [a]))|].
+      + injection H as <- <- <-. cbn [filter]. rewrite Ed.
+        split; [exact A1|]. split; [exact A2|reflexivity].
+      + destruct (IH _ _ _ _ _ _ H) as (B1 & B2 & B4). rewrite T in *.
+        cbn [filter]. rewrite Ed.
+        split; [apply (outrel_cons _ _ _ _ _ _ _ _ _ A1 A2 eq_refl B1)|].
+        split; [apply (rdrel_trans _ [a] _ _ _ A2 B2)|].
+        rewrite B4, <- app_assoc. reflexivity.
+      + destruct (IH _ _ _ _ _ _ H) as (B1 & B2 & B4). rewrite T in *.
+        cbn [filter]. rewrite Ed.
+        split; [apply (outrel_cons _ _ _ _ _ _ _ _ _ A1 A2 eq_refl B1)|].
+        split; [apply (rdrel_trans _ [a] _ _ _ A2 B2)|exact B4].
+  Qed.
+
+  (* ---- one accepted step of the model over the scripted simulation, in closed form ---- *)
+  Definition out_is (t : nat) (p : list Z) (ks : list nat) (o : out Z Z) : Prop :=
+    o_obs o = map (fun a => (a, obsv t a)) ks /\ o_rew o = rews p ks /\
+    o_done o = map (fun a => (a, rdone sc t a)) ks /\
+    o_info o = map (fun a => (a, (- obsv t a)%Z)) ks.
+
+  Lemma outrel_empty t p b ks o : outrel t p (empty_out b) ks o -> out_is t p ks o.
+  Proof. intros H. exact H. Qed.
+
+  Definition exp_keys (k : mgr) (t : nat) (d : list nat) (ptr : nat) : list nat :=
+    if r_all (row_at sc t) then filter (fun a => negb (memb a d)) (cagents sc)
+    else match k with
+         | MAll => filter (fun a => negb (memb a d)) (cagents sc)
+         | MTurn | MTurnPrefix => fst (turn_walk sc (S (length (corder sc))) t d ptr)
+         | MDyn => dyn_walk sc t d (r_next (row_at sc t))
+         end.
+
+  Definition exp_ptr (k : mgr) (t : nat) (d : list nat) (ptr : nat) : nat :=
+    match k with
+    | MTurn | MTurnPrefix =>
+        if r_all (row_at sc t) then ptr
+        else snd (turn_walk sc (S (length (corder sc))) t d ptr)
+    | _ => ptr
+    end.
+
+  Lemma model_step k m acts sh o m' : k <> MTurnPrefix ->
+    ss_do_call sc k m (CStep acts sh) = (ROut o, m') ->
+    let s1 := ss_step sc (m_sim m) (match k with MAll => sh | _ => acts end) in
+    let t := S (s_t (m_sim m)) in
+    let ks := exp_keys k t (m_done m) (m_ptr m) in
+    existsb (fun kv => memb (fst kv) (m_done m)) acts = false /\
+    out_is t (s_pend s1) ks o /\ rdrel s1 ks (m_sim m') /\
+    (r_all (row_at sc t) = false -> m_done m' = m_done m ++ filter (rdone sc t) ks) /\
+    (r_all (row_at sc t) = true -> o_all o = true) /\
+    m_ptr m' = exp_ptr k t (m_done m) (m_ptr m).
+  Proof.
+    intros Hk H. cbv zeta. unfold ss_do_call in H. destruct k; [| | |contradiction]; cbn [do_call] in H.
+    - (* all-step *)
+      unfold all_step in H.
+      destruct (existsb (fun kv => memb (fst kv) (m_done m)) acts); [discriminate|].
+      set (s1 := sim_step SS (m_sim m) sh) in *.
+      set (lv := filter (fun a => negb (memb a (m_done m))) (agents SS)) in *.
+      rewrite ss_thread_obs in H.
+      destruct (thread (sim_reward SS) s1 lv) as [rew s3] eqn:Er.
+      destruct (ss_thread_rew _ _ _ _ Er) as (R1 & R2). pose proof R2 as (T & _).
+      injection H as <- <-. cbn [m_sim m_done m_ptr o_obs o_rew o_done o_info o_all].
+      assert (Ek : exp_keys MAll (S (s_t (m_sim m))) (m_done m) (m_ptr m) = lv)
+        by (unfold exp_keys; destruct (r_all _); reflexivity).
+      rewrite Ek. change (s_t s1) with (S (s_t (m_sim m))) in *.
+      assert (Ed : map (fun a => (a, ss_done sc s3 a)) lv
+                   = map (fun a => (a, rdone sc (S (s_t (m_sim m))) a)) lv)
+        by (apply map_ext; intros a; unfold ss_done, rdone; rewrite T; reflexivity).
+      rewrite Ed. split; [reflexivity|]. split; [|split; [exact R2|split; [|split]]].
+      + unfold out_is. cbn [o_obs o_rew o_done o_info]. split; [reflexivity|].
+        split; [exact R1|]. split; [reflexivity|]. apply map_ext. intros a.
+        change (ss_info s3 a) with (- obsv (s_t s3) a)%Z. rewrite T. reflexivity.
+      + intros _. rewrite map_fst_filter_snd. reflexivity.
+      + intros E. unfold ss_all. rewrite T, E. reflexivity.
+      + reflexivity.
+    - (* turn-based *)
+      unfold turn_step, turn_step_gen in H. destruct acts as [|[a0 v0] acts']; [discriminate|].
+      set (acts := (a0, v0) :: acts') in *.
+      destruct (existsb (fun kv => memb (fst kv) (m_done m)) acts); [discriminate|].
+      split; [reflexivity|]. set (s1 := sim_step SS (m_sim m) acts) in *.
+      change (sim_all SS s1) with (r_all (row_at sc (S (s_t (m_sim m))))) in H.
+      unfold exp_keys, exp_ptr. destruct (r_all (row_at sc (S (s_t (m_sim m))))) eqn:Ea.
+      + destruct (flush SS s1 (m_done m) (agents SS) (empty_out true)) as [o1 s2] eqn:Ef.
+        destruct (ss_flush _ _ _ _ _ _ Ef) as (F1 & F2 & F3). injection H as <- <-.
+        cbn [m_sim m_done m_ptr]. split; [apply (outrel_empty _ _ _ _ _ F1)|].
+        split; [exact F2|]. split; [discriminate|]. split; [intros _; exact F3|reflexivity].
+      + destruct (turn_search SS (S (length (order SS))) s1 (m_done m) (m_ptr m) (empty_out false))
+          as [o1 s2 d p|] eqn:Es; [|discriminate].
+        destruct (ss_turn_search _ _ _ _ _ _ _ _ _ Es) as (F1 & F2 & F3 & F4).
+        injection H as <- <-. cbn [m_sim m_done m_ptr].
+        change (s_t s1) with (S (s_t (m_sim m))) in *. change (order SS) with (corder sc) in *.
+        split; [apply (outrel_empty _ _ _ _ _ F1)|]. split; [exact F2|].
+        split; [intros _; exact F4|]. split; [discriminate|exact F3].
+    - (* dynamic order *)
+      unfold dyn_step in H.
+      destruct (existsb (fun kv => memb (fst kv) (m_done m)) acts); [discriminate|].
+      split; [reflexivity|]. set (s1 := sim_step SS (m_sim m) acts) in *.
+      change (sim_all SS s1) with (r_all (row_at sc (S (s_t (m_sim m))))) in H.
+      unfold exp_keys, exp_ptr. destruct (r_all (row_at sc (S (s_t (m_sim m))))) eqn:Ea.
+      + destruct (flush SS s1 (m_done m) (agents SS) (empty_out true)) as [o1 s2] eqn:Ef.
+        destruct (ss_flush _ _ _ _ _ _ Ef) as (F1 & F2 & F3). injection H as <- <-.
+        cbn [m_sim m_done m_ptr]. split; [apply (outrel_empty _ _ _ _ _ F1)|].
+        split; [exact F2|]. split; [discriminate|]. split; [intros _; exact F3|reflexivity].
+      + destruct (dyn_loop SS s1 (m_done m) (sim_next SS s1) (empty_out false))
+          as [[o1 s2] d] eqn:Ed.
+        destruct (ss_dyn_loop _ _ _ _ _ _ _ Ed) as (F1 & F2 & F4).
+        injection H as <- <-. cbn [m_sim m_done m_ptr].
+        change (s_t s1) with (S (s_t (m_sim m))) in *.
+        change (sim_next SS s1) with (r_next (row_at sc (S (s_t (m_sim m))))) in *.
+        split; [apply (outrel_empty _ _ _ _ _ F1)|]. split; [exact F2|].
+        split; [intros _; exact F4|]. split; [discriminate|reflexivity].
+  Qed.
+End ScriptModel.
